@@ -127,7 +127,7 @@ def cases(draw):
     # every other bundle must still go out and arrive
     send_fail = draw(st.sampled_from([None, None, None, 0, 1, 2, 5])) if not restart else None
     return {'mtu': mtu, 'sends': sends, 'ops': ops, 'queries': queries, 'poll': poll, 'restart': restart, 'gap_ms': gap_ms,
-            'send_fail': send_fail}
+            'send_fail': send_fail, 'recv_mtu': draw(st.sampled_from([None, None, None, 30, 64]))}
 
 
 # --- execution ------------------------------------------------------------------------------
@@ -155,7 +155,10 @@ def execute(case, out):
     ''' Run one case; fills ``out`` with C13 verdicts; :return: trace dict for other oracles. '''
     reset()
     mtu = case['mtu']
-    recv = Agent(RECV[0], listen_port=RECV[1], node_id='dtn://receiver/')
+    # (the receiver's own MTU is a limit for what it sends; what its peers send is segmented for their MTU)
+    recv = Agent(RECV[0], mtu=case.get('recv_mtu'), listen_port=RECV[1], node_id='dtn://receiver/')
+    if case.get('recv_mtu'):
+        out.label('receiver-has-own-mtu')
     # sender 3 is a second agent on the host of sender 1 (another source port, its own transfer numbering from 0)
     senders = {1: Agent('10.0.0.1', mtu=mtu, node_id='dtn://s1/'), 2: Agent('10.0.0.2', mtu=mtu, node_id='dtn://s2/'),
                3: Agent('10.0.0.1', mtu=mtu, node_id='dtn://s3/')}
